@@ -797,6 +797,8 @@ bool Annotator::assignAllIds()
         pFunc()->update();
         size_t initialSize = pFunc()->idCount();
         pFunc()->doSetAllAutomaticIds();
+        // The list of identifiers has been kept up to date: record the state of the model it corresponds to.
+        pFunc()->mHash = pFunc()->generateHash();
         return pFunc()->idCount() > initialSize;
     }
     pFunc()->addIssueNoModel();
@@ -1329,6 +1331,8 @@ std::string Annotator::AnnotatorImpl::setAutoId(const AnyCellmlElementPtr &item)
 
             setId(item, newId);
             mIdList.insert(std::make_pair(newId, convertToWeak(item)));
+            // The list of identifiers has been kept up to date: record the state of the model it corresponds to.
+            mHash = generateHash();
         } else {
             addIssueNoModel();
         }
